@@ -232,3 +232,53 @@ func (s *S) GoodSelectSend(c chan int, closeC chan struct{}) {
 	case <-closeC:
 	}
 }
+
+// ---- exactness (converse of a guard) ----
+
+// GoodExact: drop() happens for every qualifying case.
+func (s *S) GoodExact(del bool) {
+	if s.seq <= s.min {
+		drop()
+	}
+}
+
+// BadExactSkips: a qualifying case (seq == min) is skipped.
+func (s *S) BadExactSkips(del bool) {
+	if s.seq <= s.min && del {
+		drop()
+	}
+}
+
+// ---- sibling agreement ----
+
+// EncodeHdr / DecodeHdrGood agree on the offsets; DecodeHdrBad reads the length one byte off.
+func EncodeHdr(b []byte, i int, n uint16) {
+	b[i+4] = byte(n)
+	b[i+5] = byte(n >> 8)
+}
+
+func DecodeHdrGood(b []byte, i int) uint16 { return uint16(b[i+4]) | uint16(b[i+5])<<8 }
+
+func DecodeHdrBad(b []byte, i int) uint16 { return uint16(b[i+5]) | uint16(b[i+6])<<8 }
+
+// ---- running maximum ----
+
+func GoodRunningMax(xs []uint64) uint64 {
+	var m uint64
+	for _, x := range xs {
+		if x > m {
+			m = x
+		}
+	}
+	return m
+}
+
+func BadRunningMin(xs []uint64) uint64 {
+	var m uint64
+	for _, x := range xs {
+		if x < m {
+			m = x
+		}
+	}
+	return m
+}
